@@ -9,11 +9,16 @@ RULE = ("scripted single-actor scenarios on the real engine: the Started handler
         "from {message, panicking message, Poison(self), Stop(self)} (exhaustive to length 4/5), plus panics in Initialized/Started/"
         "per incarnation, InternalError panics, handlers that send more messages, MaxRestarts 0-3, middleware chains 0-3 and external "
         "send/poison/stop phases, plus random scripts; a case is non-trivial when the model run reaches a proof-relevant branch "
-        "(restart, budget exceeded, graceful/hard pill, dead letters from flush, several pills, ...); distinct = distinct scenario")
+        "(restart, budget exceeded, graceful/hard pill, dead letters from flush, several pills, ...); distinct = distinct scenario. "
+        "(engine_stop_race) real goroutines, no schedule control: 2-4 paced senders, scripted panics with a restart delay during which "
+        "the senders go on, and a Stop or Poison request from sender 0 that waits for the returned context; every incarnation is a "
+        "value of its own (Producer) and counts its Stopped deliveries and anything delivered to it afterwards; oracle: one Receive "
+        "call at a time, Stopped once and last for the stopped incarnation (at most once for crashed ones), the context not done "
+        "before the Stopped handler returned, the id free afterwards, per-sender order without repetition")
 
 
 class Part(PC.ProcPart):
     prop = 4
 
 
-PARTS = [Part(), IC.DeliverSpawnRace(), PC.ProcSched()]
+PARTS = [Part(), IC.DeliverSpawnRace(), IC.DeliverStopRace(), PC.ProcSched()]
